@@ -168,7 +168,9 @@ type solverCfg struct {
 
 var solvers = []solverCfg{
 	{"z3-new", func(f string, t int) []string { return []string{"z3-new", fmt.Sprintf("-T:%d", t), f} }, ""},
-	{"z3", func(f string, t int) []string { return []string{"z3", fmt.Sprintf("-T:%d", t), f} }, ""},
+	// z3 4.8.12 is NOT used: on satisfiable queries mixing strings, quantifiers and wrap-around arithmetic it was observed
+	// to answer `unsat` (a reachability cover of valid.Re; the 72-assertion core is satisfiable by inspection and both other
+	// solvers disagree), so its `unsat` cannot discharge anything.
 	{"cvc5", func(f string, t int) []string {
 		return []string{"cvc5", "--strings-exp", "--produce-models", fmt.Sprintf("--tlimit=%d", t*1000), f}
 	}, ""},
@@ -352,10 +354,10 @@ func discharge(workdir, name, query string, timeoutS int, seed int) SolverResult
 	ch := make(chan rr, 4)
 	n := 2
 	go func() { ch <- rr{runSMTCtx(ctx, workdir, name, query, "(get-model)", timeoutS, seed, nil), true} }()
-	go func() { ch <- rr{runSMTCtx(ctx, workdir, name+".nostr", relaxed, "", timeoutS, seed, []string{"z3-new", "z3"}), false} }()
+	go func() { ch <- rr{runSMTCtx(ctx, workdir, name+".nostr", relaxed, "", timeoutS, seed, []string{"z3-new", "cvc5"}), false} }()
 	if foc, ch2 := focused(relaxed, 0); ch2 {
 		n++
-		go func() { ch <- rr{runSMTCtx(ctx, workdir, name+".focus", foc, "", timeoutS, seed, []string{"z3-new", "z3"}), false} }()
+		go func() { ch <- rr{runSMTCtx(ctx, workdir, name+".focus", foc, "", timeoutS, seed, []string{"z3-new", "cvc5"}), false} }()
 	}
 	if foc, ch2 := focused(query, 2); ch2 {
 		n++
